@@ -95,6 +95,8 @@ class Reader:
                 sub[k] = v
             elif isinstance(v, ast.AST):
                 sub[k] = v
+        if isinstance(e, ast.Call) and isinstance(e.func, ast.Name) and e.func.id[:1].isupper():
+            self._slice_names(env, sub)         # arguments of a constructor call: slice locals shown as slices
         if isinstance(e, ast.Call) and isinstance(e.func, ast.Name) and e.func.id == 'len' and len(e.args) == 1 \
                 and isinstance(e.args[0], ast.Name) and e.args[0].id == self.param:
             return Poly.atom('len(data)')
@@ -275,7 +277,15 @@ class Reader:
                 sub[k] = v
             elif isinstance(v, tuple) and v[0] == 'reads' and len(v[1]) == 1:
                 sub[k] = Poly.atom(v[1][0])
+        self._slice_names(env, sub)
         return self.nz.canon(e, sub)
+
+    def _slice_names(self, env, sub):
+        """a local that names a slice of the PDU data is shown as that slice (bounds as they were when it was taken): the
+        substitute is a Name whose id is the slice text (ast.unparse prints ids verbatim)"""
+        for k_, v_ in env.items():
+            if isinstance(v_, tuple) and v_[0] == 'SLICE' and '.' not in k_ and k_ not in sub:
+                sub[k_] = ast.Name(id='data[%s:%s]' % (v_[1], v_[2] if v_[2] is not None else ''), ctx=ast.Load())
 
     # -------------------------------------------------------- statements
     def bind(self, t, val, env, loop, valnode=None):
@@ -375,6 +385,24 @@ class Reader:
                 continue
             if isinstance(s, ast.Pass):
                 continue
+            if isinstance(s, ast.Assign) and isinstance(s.value, ast.Call) and U(s.value.func) == 'range' and 1 <= len(s.value.args) <= 3 \
+                    and all(isinstance(t, ast.Name) for t in s.targets):
+                # offsets = range(a, b, c): the bounds are evaluated here (their reads happen here), the loop comes later
+                try:
+                    ps = []
+                    for a in s.value.args:
+                        v_ = self.value(a, env, loop)
+                        if v_[0] == 'int':
+                            ps.append(v_[1])
+                        elif v_[0] == 'reads' and len(v_[1]) == 1:
+                            ps.append(Poly.atom(v_[1][0]))
+                        else:
+                            ps.append(self.poly(a, env))
+                    for t in s.targets:
+                        env[t.id] = ('RANGE', ps)
+                except NotInt:
+                    self.s.opaque.append('range bounds %s' % U(s.value))
+                continue
             if isinstance(s, ast.Assign):
                 v = self.value(s.value, env, loop)
                 for t in s.targets:
@@ -408,8 +436,21 @@ class Reader:
                 lp = Loop(len(self.s.loops), 'range')
                 self.s.loops.append(lp)
                 e2 = dict(env)
-                if isinstance(s.iter, ast.Call) and U(s.iter.func) == 'range' and isinstance(s.target, ast.Name):
-                    a = s.iter.args
+                it_ = s.iter
+                pre = None
+                if isinstance(it_, ast.Name) and isinstance(env.get(it_.id), tuple) and env[it_.id][0] == 'RANGE':
+                    pre = env[it_.id][1]        # offsets = range(...); for start in offsets:
+                if pre is not None and isinstance(s.target, ast.Name):
+                    if len(pre) == 1:
+                        lp.start, lp.stop, lp.step = Poly.const(0), pre[0], 1
+                    elif len(pre) == 2:
+                        lp.start, lp.stop, lp.step = pre[0], pre[1], 1
+                    else:
+                        lp.start, lp.stop, lp.step = pre[0], pre[1], pre[2].const_value()
+                    lp.var = s.target.id
+                    e2[s.target.id] = Poly.atom('$' + s.target.id)
+                elif isinstance(it_, ast.Call) and U(it_.func) == 'range' and isinstance(s.target, ast.Name):
+                    a = it_.args
                     try:
                         if len(a) == 1:
                             lp.start, lp.stop, lp.step = Poly.const(0), self.poly(a[0], env), 1
@@ -419,7 +460,7 @@ class Reader:
                             lp.start, lp.stop = self.poly(a[0], env), self.poly(a[1], env)
                             lp.step = self.poly(a[2], env).const_value()
                     except NotInt:
-                        self.s.opaque.append('range bounds %s' % U(s.iter))
+                        self.s.opaque.append('range bounds %s' % U(it_))
                     lp.var = s.target.id
                     e2[s.target.id] = Poly.atom('$' + s.target.id)
                 else:
@@ -496,6 +537,17 @@ class Reader:
                         env[k] = 'DATA'
                     else:
                         env.pop(k, None)
+                continue
+            if isinstance(s, ast.Delete) and len(s.targets) == 1 and isinstance(s.targets[0], ast.Subscript) and isinstance(s.targets[0].value, ast.Name) \
+                    and isinstance(s.targets[0].slice, ast.Slice) and s.targets[0].slice.upper is None and s.targets[0].slice.step is None \
+                    and s.targets[0].slice.lower is not None:
+                # del xs[n:]  keeps the first n elements:  xs = xs[:n]
+                nm = s.targets[0].value
+                eq = ast.Assign(targets=[ast.Name(id=nm.id, ctx=ast.Store())],
+                                value=ast.Subscript(value=ast.Name(id=nm.id, ctx=ast.Load()), slice=ast.Slice(lower=None, upper=s.targets[0].slice.lower, step=None), ctx=ast.Load()))
+                ast.copy_location(eq, s)
+                ast.fix_missing_locations(eq)
+                self.block([eq], env, loop, guard)
                 continue
             self.s.opaque.append('statement %s' % type(s).__name__)
 
